@@ -199,15 +199,21 @@ add(Contract(
         ("map-inline", "T[1].map == [startLine, state.line]"),
         ("parentType-restored", "state.parentType == old(state.parentType)"),
         ("ends-nonblank", "state.line == startLine + 1 or state.bMarks[state.line - 1] + state.tShift[state.line - 1] < state.eMarks[state.line - 1]"),
+        ("scan-consults-terminators", "forall(l, startLine + 1, state.line, state.bMarks[l] + state.tShift[l] < state.eMarks[l] and implies((state.sCount[l] - state.blkIndent <= 3 and state.sCount[l] >= 0), forall(j, 0, len(terminatorRules), not RuleFires(terminatorRules[j], l))))", ["C06", "C07", "C10"]),
+        ("scan-stops-for-a-reason", "state.line >= state.lineMax or state.bMarks[state.line] + state.tShift[state.line] >= state.eMarks[state.line] or "
+                                    "((state.sCount[state.line] - state.blkIndent <= 3 and state.sCount[state.line] >= 0) and exists(j, 0, len(terminatorRules), RuleFires(terminatorRules[j], state.line)))", ["C06", "C07"]),
     ],
     loops={0: {"types": {"terminate": "bool"},
                "inv": [("next-lo", "nextLine >= startLine + 1"), ("next-hi", "nextLine <= max(endLine, startLine + 1)"),
                        ("endLine", "endLine == state.lineMax"), ("line", "state.line == old(state.line)"),
-                       ("prev-nonblank", "nextLine == startLine + 1 or state.bMarks[nextLine - 1] + state.tShift[nextLine - 1] < state.eMarks[nextLine - 1]")],
+                       ("prev-nonblank", "nextLine == startLine + 1 or state.bMarks[nextLine - 1] + state.tShift[nextLine - 1] < state.eMarks[nextLine - 1]"),
+                       ('scanned', 'forall(l, startLine + 1, nextLine, state.bMarks[l] + state.tShift[l] < state.eMarks[l] and implies((state.sCount[l] - state.blkIndent <= 3 and state.sCount[l] >= 0), forall(j, 0, len(terminatorRules), not RuleFires(terminatorRules[j], l))))')],
                "dec": "endLine - nextLine"},
            1: {"inv": [("next-lo", "nextLine >= startLine + 1"), ("next-hi", "nextLine < endLine"),
                        ("endLine", "endLine == state.lineMax"), ("line", "state.line == old(state.line)"),
-                       ("terminate", "not terminate"),
+                       ("terminate", "not terminate"), ('scanned', 'forall(l, startLine + 1, nextLine, state.bMarks[l] + state.tShift[l] < state.eMarks[l] and implies((state.sCount[l] - state.blkIndent <= 3 and state.sCount[l] >= 0), forall(j, 0, len(terminatorRules), not RuleFires(terminatorRules[j], l))))'),
+                       ("none-fired-yet", "forall(j, 0, _it1, not RuleFires(terminatorRules[j], nextLine))"),
+                       ("eligible", "(state.sCount[nextLine] - state.blkIndent <= 3 and state.sCount[nextLine] >= 0)"),
                        ("cur-nonblank", "state.bMarks[nextLine] + state.tShift[nextLine] < state.eMarks[nextLine]")],
                "dec": "len(terminatorRules) - _it1"}},
 ))
@@ -253,13 +259,16 @@ add(Contract(
         ("markup-src", "implies(result, T[0].markup == state.src[state.bMarks[state.line - 1] + state.tShift[state.line - 1]])"),
         ("underline-nonblank", "implies(result, state.bMarks[state.line - 1] + state.tShift[state.line - 1] < state.eMarks[state.line - 1])"),
         ("parentType-restored", "implies(result, state.parentType == old(state.parentType))"),
+        ("scan-consults-terminators", "implies(result, forall(l, startLine + 1, state.line - 1, state.bMarks[l] + state.tShift[l] < state.eMarks[l] and implies((state.sCount[l] - state.blkIndent <= 3 and state.sCount[l] >= 0), forall(j, 0, len(terminatorRules), not RuleFires(terminatorRules[j], l)))))", ["C06", "C07", "C10"]),
     ],
     loops={0: {"types": {"terminate": "bool", "marker": "char", "pos": "int", "maximum": "int", "level": "optint"},
                "inv": [("next-lo", "nextLine >= startLine + 1"), ("next-hi", "nextLine <= max(endLine, startLine + 1)"),
-                       ("line", "state.line == old(state.line)"), ("level-none", "level is None")],
+                       ("line", "state.line == old(state.line)"), ("level-none", "level is None"), ("scanned", 'forall(l, startLine + 1, nextLine, state.bMarks[l] + state.tShift[l] < state.eMarks[l] and implies((state.sCount[l] - state.blkIndent <= 3 and state.sCount[l] >= 0), forall(j, 0, len(terminatorRules), not RuleFires(terminatorRules[j], l))))')],
                "dec": "endLine - nextLine"},
            1: {"inv": [("next-lo", "nextLine >= startLine + 1"), ("next-hi", "nextLine < endLine"),
-                       ("line", "state.line == old(state.line)"), ("terminate", "not terminate"), ("level-none", "level is None")],
+                       ("line", "state.line == old(state.line)"), ("terminate", "not terminate"), ("level-none", "level is None"), ("scanned", 'forall(l, startLine + 1, nextLine, state.bMarks[l] + state.tShift[l] < state.eMarks[l] and implies((state.sCount[l] - state.blkIndent <= 3 and state.sCount[l] >= 0), forall(j, 0, len(terminatorRules), not RuleFires(terminatorRules[j], l))))'),
+                       ("none-fired-yet", "forall(j, 0, _it1, not RuleFires(terminatorRules[j], nextLine))"),
+                       ("eligible", '(state.sCount[nextLine] - state.blkIndent <= 3 and state.sCount[nextLine] >= 0)'), ("nonempty", "state.bMarks[nextLine] + state.tShift[nextLine] < state.eMarks[nextLine]")],
                "dec": "len(terminatorRules) - _it1"}},
 ))
 
@@ -290,6 +299,7 @@ add(Contract(
 # ------------------------------------------------------------------ ParserBlock.tokenize (C01 progress, C20 nesting guard, C03 dispatch guard)
 PB = "markdown_it.parser_block.ParserBlock."
 REGISTRY["<block_rule>"].ensures.append(("fallback", "implies(AlwaysMatches(__fn__) and not silent, result)"))
+REGISTRY["<block_rule>"].ensures.append(("silent-deterministic", "implies(silent, result == RuleFires(__fn__, startLine))"))
 REGISTRY["<block_rule>"].ensures.append(("level", "state.level == old(state.level) and state.lineMax == old(state.lineMax) and state.blkIndent == old(state.blkIndent)"))
 REGISTRY["markdown_it.ruler.Ruler.getRules"].ensures.append(("fallback-last", "len(result) >= 1 and AlwaysMatches(result[len(result) - 1])"))
 add(Contract(
